@@ -274,3 +274,26 @@ Proof.
   - intros Ho. exact (tstw_final ir m a Ho R0).
 Qed.
 Print Assumptions C02_compare_test_word_final_state.
+
+(* divide and remainder with a register destination (the six DIV and six MOD opcodes go through div_arm / mod_arm,
+   C02_opcode_arms / exec_div / exec_mod): quotient / remainder as C02_div_mod_results defines them, N and Z from it
+   at the operand size, C = 0 *)
+Theorem C02_div_mod_final_state :
+  forall ir dst m a b q r,
+    read_op ir 0 m = Ok a m -> read_op ir 1 m = Ok b m -> a <> 0 ->
+    omode (get_op ir dst) = MRegister -> oreg (get_op ir dst) = Some r -> 0 <= r <= 10 ->
+    otype (get_op ir dst) <> DNone ->
+    let t := otype (get_op ir dst) in
+    (forall oa ob, div_val a b (otype (get_op ir 1)) = Some q ->
+       exists m', div_arm ir dst oa ob m = Ok (ilen ir) m'
+         /\ R m' r = q /\ flag F_N m' = Z.testbit q (sign_bit t) /\ flag F_Z m' = (trunc_to t q =? 0) /\ flag F_C m' = false
+         /\ (forall i, 0 <= i <= 15 -> i <> r -> i <> 11 -> R m' i = R m i) /\ mbus m' = mbus m)
+    /\ (mod_val a b (otype (get_op ir 1)) = Some q ->
+       exists m', mod_arm ir dst m = Ok (ilen ir) m'
+         /\ word_outcome m m' r q (Z.testbit q (sign_bit t)) (trunc_to t q =? 0) (too_big t q) false).
+Proof.
+  intros ir dst m a b q r R0 R1 Na Hm Hr Hr10 Ht t. split.
+  - intros oa ob Hq. exact (div_arm_final ir dst oa ob m a b q r R0 R1 Na Hq Hm Hr Hr10 Ht).
+  - intros Hq. exact (mod_arm_final ir dst m a b q r R0 R1 Na Hq Hm Hr Hr10 Ht).
+Qed.
+Print Assumptions C02_div_mod_final_state.
